@@ -216,10 +216,18 @@ func c11Config() (threshold, mine, theirs, ticks int, panics int, flushFirst boo
 		// quick: 2 own tasks, 1 concurrent task; either no tick (with/without Flush first, with/without a
 		// panicking batch) or one tick (short or long jump)
 		mine, theirs = 2, 1
-		ticks = rt.Choose("ticks", 2)
+		ticks = rt.Choose("ticks", 3)
 		if ticks == 0 {
 			flushFirst = rt.Choose("flushFirst", 2) == 1
 			panics = rt.Choose("panics", 2)
+		}
+		if ticks == 2 {
+			// two ticks: one own and one concurrent task, both at the threshold (two batches in flight
+			// while the flusher may go idle)
+			if threshold != 1 {
+				rt.Assume(false)
+			}
+			mine = 1
 		}
 		return
 	}
@@ -232,7 +240,7 @@ func c11Config() (threshold, mine, theirs, ticks int, panics int, flushFirst boo
 }
 
 //verif:entry tier=quick,thorough steps=4000000 preempt=1 allowdeadlock cover=wait,flush,idlejump,callbackpanic
-//verif:doc PeriodicalExecutor over the real bulkContainer (BulkExecutor): threshold 1..2, the caller adds 2 (thorough 0..2) tasks then (optionally Flush and) Wait, a concurrent producer adds 1 (thorough 1..2) tasks, the clock goroutine delivers 0..1 (thorough 0..2) ticks advancing the virtual clock by one interval or by more than idleRound intervals (so the background flusher may quit and be restarted by a later Add); optionally one task makes the execute callback panic. Every task is handed to the callback exactly once, Wait returns only after the callbacks of everything added before it have returned, a panicking callback loses only its batch. Schedules with at most 1 preemption.
+//verif:doc PeriodicalExecutor over the real bulkContainer (BulkExecutor): threshold 1..2, the caller adds 2 (thorough 0..2) tasks then (optionally Flush and) Wait, a concurrent producer adds 1 (thorough 1..2) tasks, the clock goroutine delivers 0..2 ticks (quick: 2 ticks only with threshold 1 and one own task) advancing the virtual clock by one interval or by more than idleRound intervals (so the background flusher may quit and be restarted by a later Add); optionally one task makes the execute callback panic. Every task is handed to the callback exactly once, Wait returns only after the callbacks of everything added before it have returned, a panicking callback loses only its batch. Schedules with at most 1 preemption.
 func Verif_C11_Bulk() {
 	w := c11NewWorld()
 	threshold, mine, theirs, ticks, panics, flushFirst := c11Config()
